@@ -1,5 +1,6 @@
 import VueJsx.Visitor
 import VueJsx.Canon
+import VueJsx.Oracle
 open VueJsx
 
 /-- reads the driver protocol of tools/alpha.py: one `(case …)` S-expression per line -/
@@ -15,9 +16,27 @@ def envOfNodes (known pat comments : Node) : Env :=
 
 def trunc (s : String) (n : Nat) : String := if s.length > n then (s.take n).toString ++ "…" else s
 
-def runCase (line : String) : String :=
+def oracleFor (prop : String) (o : Opts) (env : Env) (inN outN : Node) (diags : List String) : Verdict :=
+  let _ := (o, env, diags)
+  if prop == "C02" then oracleC02 o inN outN
+  else .skip "no-oracle"
+
+/-- unit lines: `(unit 'fn 'arg 'implResult)` -/
+def runUnit (fn arg impl : String) : String :=
+  let model : String :=
+    if fn == "transform_text" then String.ofList (Text.cleanText arg.toList)
+    else if fn == "is_on" then toString (Text.isOn arg.toList)
+    else if fn == "is_directive" then toString (isDirectiveAttrName (
+      match arg.splitOn ":" with
+      | [ns, n] => .ns ns n
+      | _ => .plain arg))
+    else "?"
+  if model == impl then s!"u\tok\tfn={fn}" else s!"u\tunit-diff\tfn={fn}\targ={encodeAtom arg}\tmodel={encodeAtom model}\timpl={encodeAtom impl}"
+
+def runCase (prop : String) (line : String) : String :=
   match parseNode line with
   | none => "?\tparse-error"
+  | some (.mk (.other "unit") [fn, arg, impl] _) => runUnit fn arg impl
   | some (.mk _ [id, status] [optsN, knownN, patN, commentsN, inN, outN, diagsN]) =>
     let o := optsOfNode optsN
     let env := envOfNodes knownN patN commentsN
@@ -25,28 +44,30 @@ def runCase (line : String) : String :=
     let mStatus := if st.panicked.isSome then "panic" else "ok"
     let mDiags := st.diags
     let iDiags := diagsN.atoms
+    let orc := if status == "panic" then Verdict.skip "panic" else oracleFor prop o env inN outN iDiags
+    let tail := s!"\toracle={orc.render}"
     if status != mStatus then
-      s!"{id}\tstatus-diff\tmodel={mStatus}:{st.panicked.getD ""}\timpl={status}"
-    else if status == "panic" then s!"{id}\tok-panic"
+      s!"{id}\tstatus-diff\tmodel={mStatus}:{st.panicked.getD ""}\timpl={status}{tail}"
+    else if status == "panic" then s!"{id}\tok-panic{tail}"
     else
       let a := canon mOut
       let b := canon outN
       match firstDiff a b [] with
       | some (path, x, y) =>
-        s!"{id}\tout-diff\tpath={path}\tmodel={trunc (printNode x) 600}\timpl={trunc (printNode y) 600}"
+        s!"{id}\tout-diff\tpath={path}\tmodel={trunc (printNode x) 600}\timpl={trunc (printNode y) 600}{tail}"
       | none =>
-        if mDiags != iDiags then s!"{id}\tdiag-diff\tmodel={mDiags}\timpl={iDiags}"
-        else s!"{id}\tok"
+        if mDiags != iDiags then s!"{id}\tdiag-diff\tmodel={mDiags}\timpl={iDiags}{tail}"
+        else s!"{id}\tok{tail}"
   | some _ => "?\tbad-case-shape"
 
-partial def loop (h : IO.FS.Stream) (out : IO.FS.Stream) : IO Unit := do
+partial def loop (prop : String) (h : IO.FS.Stream) (out : IO.FS.Stream) : IO Unit := do
   let line ← h.getLine
   if line.isEmpty then return ()
   let l := line.trimAscii.toString
-  if !l.isEmpty then out.putStrLn (runCase l)
-  loop h out
+  if !l.isEmpty then out.putStrLn (runCase prop l)
+  loop prop h out
 
-def main : IO Unit := do
+def main (args : List String) : IO Unit := do
   let stdin ← IO.getStdin
   let stdout ← IO.getStdout
-  loop stdin stdout
+  loop (args.headD "") stdin stdout
